@@ -19,6 +19,12 @@ type Impl struct {
 	P       *Params
 	Shared  func(k, u []byte) (out []byte, ok bool)
 	KeyGen  func(k []byte) []byte
+	// SharedAlias calls Shared with the aliasing pattern mode (see alias.go) and
+	// returns the output, the flag and the operands that are not the output as
+	// they are after the call (nil for an operand that is the output).
+	SharedAlias func(mode string, k, u []byte) (out []byte, ok bool, kAfter, uAfter []byte)
+	// KeyGenAlias calls KeyGen(&x, &x).
+	KeyGenAlias func(k []byte) []byte
 	Backend string        // back-end actually selected: "generic", "asm-legacy", "asm-bmi2adx"
 	Globals func() string // digest of the package's tables
 }
@@ -268,6 +274,8 @@ func RunShared(r *verifmc.Run, im *Impl) {
 		"each pair runs the real Shared once and is compared with the RFC 7748 big.Int ladder (value) and with output==0 (flag)")
 	m := newMemo(pp.C, r)
 	runPairs(r, im, m, ps.pairs)
+	runAlias(r, im, m, kCore, uCore)
+	runChain(r, im, m, r.Pick(200, 1000))
 	m.finish(r)
 	if pp.C.Bits == 448 {
 		r.NotExhaustive("X448 non-canonical range p..2^448-1 has 2^224+1 values; its two ends (32 each) and all single-bit offsets are enumerated, not the range")
@@ -306,6 +314,7 @@ func RunKeyGen(r *verifmc.Run, im *Impl) {
 		pub, want []byte
 		sh        []byte
 		shok      bool
+		inplace   []byte
 		pan       string
 	}
 	res := make([]kres, len(ks))
@@ -320,6 +329,9 @@ func RunKeyGen(r *verifmc.Run, im *Impl) {
 		pan, what := verifmc.Try(func() {
 			x.pub = im.KeyGen(k)
 			x.sh, x.shok = im.Shared(k, base)
+			if im.KeyGenAlias != nil {
+				x.inplace = im.KeyGenAlias(append([]byte{}, ks[i].B...))
+			}
 		})
 		if pan {
 			x.pan = what
@@ -362,6 +374,17 @@ func RunKeyGen(r *verifmc.Run, im *Impl) {
 		if xladder.IsZero(x.want) {
 			r.Count("reference_zero", 1)
 		}
+		if x.inplace != nil {
+			r.Eval(1)
+			r.Count("aliased_keygen", 1)
+			if !bytes.Equal(x.inplace, x.want) {
+				r.Violation("C06|"+entry+"|value-differs-from-rfc7748|alias public=secret,k="+kc, id,
+					fmt.Sprintf("KeyGen(&x, &x) with x=%s gives %s, RFC 7748 X(k, base) = %s", hx(ks[i].B), hx(x.inplace), hx(x.want)), rp)
+			}
+		}
+	}
+	if im.KeyGenAlias == nil {
+		r.Vacuous("harness does not provide KeyGenAlias")
 	}
 	r.Count("distinct_clamped_scalars", len(distinctClamped))
 	m.finish(r)
